@@ -73,6 +73,9 @@ package handler
 //@   ensures [oversize-error-body] delta(SendResponseTooLarge) == 1 ==> delta(SendError) == 1
 // C02: a response whose body breaks off is answered 400; the invoker, who has received nothing in the buffered case, is handed a
 // platform error instead of an empty success, and the runtime's protocol state moves on
+// C06 ("its body is ... a JSON error naming the first fault"): a response that breaks off because the runtime died reaches the invoker
+// before the exit event does; what it is told then is the only body it gets, so it is a JSON error document, not an empty body
+//@   ensures [C06: a-broken-off-response-is-answered-with-a-json-error-not-an-empty-body] delta(SendResponseTruncated) == 1 ==> delta(SendError) == 1 && (len(lastarg(SendError, 2).Payload) != 0 || lastarg(SendError, 2).FunctionError.Type == fatalerror.SandboxFailure)
 //@   ensures [C02: a-truncated-response-is-answered-and-the-invoker-told] delta(SendResponseTruncated) == 1 ==> delta(SendError) == 1 && delta(RtResponseSent) == 1 && delta(RenderTruncated) == 1 && delta(RenderAccepted) == 0
 // C12: a response whose mode header is unknown is answered 400 and the invoker gets the platform's error: the invocation's one
 // response has been given, so the runtime's protocol state moves on like after any other answered response (it was left in
